@@ -20,6 +20,8 @@ def run(prop, wd, thorough):
     ticks = 3 if (thorough or streams == 1) else 2
     cfg = os.path.join(wd, 'NucleoMC.cfg')
     edits = 2 if (streams == 1 and thorough) else 1      # two edits reach the rescoring of placeholders left by a cancelled run
+    if streams == 2 and not thorough:
+        edits = 0        # quick two-stream instance: restarts with the empty pattern only (the pattern paths are the one-stream instances')
     open(cfg, 'w').write('SPECIFICATION Spec\nCONSTANTS N = 2\n MaxStreams = %d\n MaxTicks = %d\n MaxEdits = %d\n SortInflight = TRUE\n Pats = {0, 1, 2, 3}\n Appendable = {0, 1, 2, 3}\nINVARIANTS %s\nCHECK_DEADLOCK FALSE\n'
                          % (streams, ticks, edits, ' '.join(INVS[prop])))
     rc, out = tlc('NucleoMC.tla', cfg=cfg, workers=NCPU, timeout=6000, xmx='24g', extra=['-coverage', '1'])
@@ -27,7 +29,8 @@ def run(prop, wd, thorough):
     if tlc_failed(rc, out) or not st['completed'] or 'is violated' in out:
         die_tool('NucleoMC.tla: protocol model violates its invariant or did not finish (oracle defect, not a verdict)\n' + out[-3000:])
     acts = coverage_actions(out)
-    never = [a for a, c in acts.items() if a[0].isupper() and c['generated'] == 0 and a not in ('Init',) and not (a == 'Restart' and streams == 1) and not (a == 'RescorePh' and edits == 1)
+    never = [a for a, c in acts.items() if a[0].isupper() and c['generated'] == 0 and a not in ('Init',) and not (a == 'Restart' and streams == 1) and not (a == 'RescorePh' and edits <= 1)
+             and not (edits == 0 and a in ('Reparse', 'RescoreCheck', 'RescoreOne', 'RescoreDone', 'RetryItem', 'RetryDone', 'ScanItem', 'ScanDone', 'SortStepWith', 'SortStep'))
              and a not in ('Drop', 'RunEndThenAcquire', 'Next')]
     if never:
         die_tool('NucleoMC.tla: actions never taken in the bounded model (vacuity): %s' % never)
